@@ -331,6 +331,12 @@ let q_struct (k : int) (it : item) (args : string list) : string =
         | SingleNamed (n, r) -> string_of_str n ^ ":" ^ (if r then "v" else "r") in
       let arm (i, b) = Printf.sprintf "v%d:%s" (i_nat i) (match b with AStr l -> "S:" ^ hex_of_str l | AInner sg -> "I:" ^ single sg) in
       "[" ^ String.concat ";" (List.map arm c.mc_arms @ (if c.mc_wild_panic then ["W"] else [])) ^ "]") (gen_as_ref it)
+  | ["EnumMessage"] ->
+    res_str (fun c ->
+      let tbl arms wild = "[" ^ String.concat ";" (List.map (fun (i, l) -> Printf.sprintf "v%d:%s" (i_nat i) (hex_of_str l)) arms @ (if wild then ["W"] else [])) ^ "]" in
+      Printf.sprintf "msg=%s|det=%s|doc=%s|ser=[%s]" (tbl c.mg_msg c.mg_msg_wild) (tbl c.mg_det c.mg_det_wild) (tbl c.mg_doc c.mg_doc_wild)
+        (String.concat ";" (List.map (fun (i, ls) -> Printf.sprintf "v%d:[%s]" (i_nat i) (String.concat "," (List.map hex_of_str ls))) c.mg_ser)))
+      (gen_message it)
   | ["EnumProperty"] ->
     res_str (fun c ->
       let tbl show sel =
